@@ -855,7 +855,48 @@ pub fn shape_control(m: TMsg) -> TMsg {
             return m;
         }
         let is_var = |a: &TAvp| BYTE_KINDS.contains(&a.kind.as_str()) || STR_KINDS.contains(&a.kind.as_str());
-        match r.below(6) {
+        match r.below(8) {
+            7 => {
+                // near-duplicates: the same kind twice, next to each other or apart, with values that differ only in the
+                // case of ASCII letters, in white space at the ends, or in a trailing NUL (names that "compare equal")
+                let kind = *r.pick(&["HostName", "VendorName", "CalledNumber", "ProxyAuthenName", "SubAddress", "PrivateGroupId"]);
+                let stems = ["Lac-Host-01.Example.Net", "lns.example.com", "TunnelGroupAlpha", "Vendor Name GmbH", "call-4711-B", "aAbBcCdDeEfF"];
+                let v: Vec<u8> = r.pick(&stems).as_bytes().to_vec();
+                let w: Vec<u8> = match r.below(5) {
+                    0 => v.to_ascii_lowercase(),
+                    1 => v.to_ascii_uppercase(),
+                    2 => v.iter().map(|c| if c.is_ascii_lowercase() { c.to_ascii_uppercase() } else { c.to_ascii_lowercase() }).collect(),
+                    3 => [v.clone(), vec![0x20]].concat(),
+                    _ => [v.clone(), vec![0]].concat(),
+                };
+                let j = 1 + r.below(avps.len());
+                avps.insert(j.min(avps.len()), TAvp::new(kind, vec![hex(&v)]));
+                let k = if r.chance(2, 3) { j + 1 } else { avps.len() };
+                avps.insert(k.min(avps.len()), TAvp::new(kind, vec![hex(&w)]));
+            }
+            6 => {
+                // two long values, each repeated exactly, interleaved: A, A, B, C, B (C of another size)
+                let kinds = ["Challenge", "HostName", "PrivateGroupId", "ProxyAuthenName"];
+                let a = TAvp::new(*r.pick(&kinds), vec![hex(&r.bytes(17 + r.below(40)))]);
+                let b = TAvp::new(*r.pick(&kinds), vec![hex(&r.bytes(17 + r.below(40)))]);
+                let c = TAvp::new(*r.pick(&kinds), vec![hex(&r.bytes(1 + r.below(12)))]);
+                let filler = TAvp::new("ReceiveWindowSize", vec!["8".into()]);
+                let mut seq = vec![a.clone()];
+                if r.chance(1, 2) {
+                    seq.push(filler.clone());
+                }
+                seq.push(a);
+                if r.chance(1, 2) {
+                    seq.push(filler);
+                }
+                seq.push(b.clone());
+                seq.push(c);
+                seq.push(b);
+                let j = 1 + r.below(avps.len());
+                for (k, x) in seq.into_iter().enumerate() {
+                    avps.insert((j + k).min(avps.len()), x);
+                }
+            }
             5 => {
                 // the pattern hidden AVPs come in (RFC 2661 4.3): a Random Vector, hidden AVPs under it, the vector
                 // restated (the same octets, or others) and more hidden AVPs
@@ -1042,6 +1083,43 @@ pub fn echo_header(m: TMsg) -> TMsg {
     }
 }
 
+/// One data message in twelve carries a payload that is itself a frame of the same session: a data (or control) flag
+/// word with the L bit, a Length word equal to the payload's own size (or the outer message's), the message's own tunnel
+/// and session ids, then what was there.  Frames handed back by a relay look like that.
+pub fn nest_data(m: TMsg) -> TMsg {
+    let text = m.render();
+    let r = content_rng(&text, "nest-data");
+    if !r.chance(1, 12) {
+        return m;
+    }
+    if let TMsg::Data { p, len, tid, sid, nsnr, off, mut data } = m.clone() {
+        let n = data.len();
+        if n < 8 {
+            return m;
+        }
+        let outer = encode_msg(&m).map(|b| b.len()).unwrap_or(0);
+        let w: u16 = match r.below(4) {
+            0 => 0x0220,
+            1 => 0x8220,
+            2 => 0x1320,
+            _ => 0x0220 | if nsnr.is_some() { 0x1000 } else { 0 },
+        };
+        let l = match r.below(4) {
+            0 | 1 => n,
+            2 => outer,
+            _ => n - off.unwrap_or(0) as usize,
+        } as u16;
+        let at = off.unwrap_or(0) as usize;
+        let at = if at + 8 <= n && r.chance(1, 2) { at } else { 0 };
+        data[at..at + 2].copy_from_slice(&w.to_be_bytes());
+        data[at + 2..at + 4].copy_from_slice(&l.to_be_bytes());
+        data[at + 4..at + 6].copy_from_slice(&tid.to_be_bytes());
+        data[at + 6..at + 8].copy_from_slice(&sid.to_be_bytes());
+        return TMsg::Data { p, len, tid, sid, nsnr, off, data };
+    }
+    m
+}
+
 /// The `length` member of a control message value is not part of what is encoded (the encoder counts for itself); here
 /// it is made to look meaningful: the true size, the size plus what the writer already holds, what the writer holds,
 /// the size of the AVPs alone.
@@ -1157,7 +1235,7 @@ pub fn gen_data(r: &Rng, with_offset: bool) -> TMsg {
             return TMsg::Data { p, len, tid, sid, nsnr, off, data: d };
         }
     }
-    echo_header(digest_data(m))
+    nest_data(echo_header(digest_data(m)))
 }
 
 /// a data message as a caller may build it: the Length field absent, true, off by a little, or anything at all
@@ -2528,6 +2606,14 @@ fn hide_stream(r: &Rng, out: &mut Out, n: usize, op: &str) {
             }
         }
     }
+    {
+        let cr = content_rng("cipher starts with rv", op);
+        for i in 0..8 {
+            if let Some((kind, value, s_, rv)) = cipher_starts_with_rv(&cr) {
+                out.push(format!("{} {}({}) {} {} {} {}", op, kind, hex(&value), hex(&s_), hex(&rv), hex(&cr.bytes(i % 5)), hex(&cr.bytes(16))));
+            }
+        }
+    }
     // by rule: value lengths 1..=130 (one to nine 16-octet chunks, every remainder), length paddings that
     // leave the total just below, at and above a chunk boundary, secrets of every length 0..=70 (the MD5 block
     // boundaries of secret+chunk and of type+secret+vector lie in there) and two long ones
@@ -2667,6 +2753,33 @@ fn keystream_case(r: &Rng, target: usize, at: usize) -> Option<(&'static str, Ve
     }
     let value = plain[2..2 + vl].to_vec();
     Some((kind, value, s, rv, lp, cipher))
+}
+
+/// A hide whose first ciphertext chunk begins with the four octets of the random vector (the chunk that is hashed next
+/// then starts like the one hashed first ended): value of three chunks and more.  (kind, value, secret, rv)
+fn cipher_starts_with_rv(r: &Rng) -> Option<(&'static str, Vec<u8>, Vec<u8>, Vec<u8>)> {
+    let kind = BYTE_KINDS[r.below(9)];
+    let attr = {
+        let rec = encode_avp(&TAvp::new(kind, vec!["00".into()]))?;
+        ((rec[4] as u16) << 8) | rec[5] as u16
+    };
+    let s = secret(r);
+    for _ in 0..20000 {
+        let rv = r.bytes(4);
+        let mut buf = attr.to_be_bytes().to_vec();
+        buf.extend_from_slice(&s);
+        buf.extend_from_slice(&rv);
+        let k = md5::compute(&buf).0;
+        let want = (((k[0] ^ rv[0]) as usize) << 8) | (k[1] ^ rv[1]) as usize;
+        if (6 + 46..=600).contains(&want) {
+            let vl = want - 6;
+            let mut value = r.bytes(vl);
+            value[0] = k[2] ^ rv[2];
+            value[1] = k[3] ^ rv[3];
+            return Some((kind, value, s, rv));
+        }
+    }
+    None
 }
 
 /// RFC 2661 4.3 applied to a plaintext that is already a multiple of 16 octets (the generator's own
@@ -4286,6 +4399,27 @@ fn generate_base(prop: &str, tier: &str, seed: u64) -> Vec<String> {
             c08_stream(&r, &mut out, n(20000, 400000));
             dictionary_stream(&r, &mut out, "sfx");
             big_input_cases(&Rng::new(seed, "big-C08"), &mut out, n(36, 120), n(6, 30), 0);
+            // a bare list (not bound by a 16-bit Length): a vendor-specific record with vendor id v in front of exactly
+            // v · 65536 octets of further records, one octet less, one more
+            {
+                let vr = content_rng("vendor in front of 65536", "c08");
+                for v in [1u16, 2] {
+                    for delta in [0isize, -1, 1] {
+                        let mut l: Vec<u8> = record(1, v, 7, &vr.bytes(4));
+                        let mut left = (v as isize * 65536 + delta) as usize;
+                        while left >= 1023 + 7 {
+                            l.extend(record(1, 0, 11, &vr.bytes(1017)));
+                            left -= 1023;
+                        }
+                        if left > 1023 {
+                            l.extend(record(1, 0, 11, &vr.bytes(500)));
+                            left -= 506;
+                        }
+                        l.extend(record(1, 0, 7, &vr.bytes(left - 6)));
+                        out.push(format!("avps {}", hex(&l)));
+                    }
+                }
+            }
         }
         "C09" => {
             for (i, t) in systematic_avps(true).iter().enumerate() {
@@ -4412,6 +4546,13 @@ fn generate_base(prop: &str, tier: &str, seed: u64) -> Vec<String> {
         "C17" => c17_stream(&r, &mut out, n(500, 10000)),
         "C18" => {
             c18_stream(&r, &mut out, n(15000, 900000));
+            // a checked request for (nearly) as many octets as a usize can count, from a fresh reader, after some were
+            // consumed, and inside a sub-reader: refused, not computed with
+            for big in [usize::MAX, usize::MAX - 1, usize::MAX - 7, usize::MAX / 2 + 1, 1usize << 63, (1usize << 32) + 5] {
+                for pre in ["", "u8,", "u16,k3,", "P9,u8,", "k1,P4,", "s3,u32,"] {
+                    out.push(format!("rd 000102030405060708090a0b0c0d0e0f {}b{},u8,b2", pre, big));
+                }
+            }
             big_input_cases(&Rng::new(seed, "big-C18"), &mut out, 0, 0, n(36, 240));
         }
         "C19" => {
